@@ -226,6 +226,10 @@ class Ctx:
 
     # ---------------------------------------------------------------- evidence
     def write_evidence(self, level="proof", extra=None):
+        if os.path.realpath(REPO) != "/repo":
+            # self-test against a scratch copy (VERIF_REPO): evidence must only come from runs against /repo itself
+            self.log("self-test run against %s: evidence file left untouched" % REPO)
+            return
         cov = dict(self.coverage)
         cov.setdefault("obligations", len(self.obligations))
         cov.setdefault("discharged", len(self.discharged))
